@@ -1,5 +1,5 @@
 """C10: set_y(y) is the likelihood x -> N(y; Mx+b, Sigma) including its normaliser, as a well-formed batch."""
-from .condprops import make_case
+from .condprops import make_case, CTOR_VARIANTS
 
 PROP = "C10"
 KINDS = ["full", "diag", "identity", "identitydiag", "nncontrol"]
@@ -23,8 +23,8 @@ def cases(tier, seed=0):
                 out.append(make_case(PROP, "sety_ops", kind, Dx, Dy, 1, 1, N=2, semi=semi, timeout=600))
     for kind in KINDS:
         dd = (2, 2) if kind.startswith("identity") else (2, 1)
-        for var in (("viaL",), ("upd",)):
-            if kind == "nncontrol" and var == ("viaL",):
+        for var in CTOR_VARIANTS:
+            if (kind == "nncontrol" and var in (("viaL",), ("viaSL",))) or var[0].startswith("px"):
                 continue
             out.append(make_case(PROP, "sety", kind, dd[0], dd[1], 1, 1, N=2, semi=var, timeout=600))
             out.append(make_case(PROP, "sety", kind, 1, 1, 1 if kind == "nncontrol" else 2, 1, N=2, semi=var, timeout=600))
